@@ -102,7 +102,10 @@ class ServerStateMachine(StateMachine):
 		path = self.message.uri.path
 		self.message.uri.normalize()
 		if path != self.message.uri.path:
-			raise MOVED_PERMANENTLY(self.message.uri.path.encode('UTF-8'))
+			canonical = self.message.uri.path
+			if path.startswith(u'/') and not canonical.startswith(u'/'):
+				canonical = u'/%s' % (canonical, )  # an absolute path stays absolute: "/../a" is "/a"
+			raise MOVED_PERMANENTLY(canonical.encode('UTF-8'))
 
 	def validate_request_uri_scheme(self) -> None:
 		if self.message.uri.scheme:
